@@ -104,4 +104,25 @@ Proof. exact (@EquivUrl.parse_titan_params_tie). Qed.
 Print Assumptions C14_code_parse_titan_params_tie.
 
 
+
+(* ---- tie to the code (server/protocol.py: the content handed to the upload handler is the first <size> bytes after the request line): theorems of coq/Equiv/EquivServer.v (statements there), re-checked against the definitions
+   regenerated from /repo's working tree; see DESIGN.md 11.8 ---- *)
+From NV Require Equiv.EquivServer.
+Theorem C14_code_data_received_tie : ltac:(let t := type of @EquivServer.data_received_tie in exact t).
+Proof. exact (@EquivServer.data_received_tie). Qed.
+Print Assumptions C14_code_data_received_tie.
+
+Theorem C14_code_handle_titan_url_tie : ltac:(let t := type of @EquivServer.handle_titan_url_tie in exact t).
+Proof. exact (@EquivServer.handle_titan_url_tie). Qed.
+Print Assumptions C14_code_handle_titan_url_tie.
+
+Theorem C14_code_process_titan_upload_tie : ltac:(let t := type of @EquivServer.process_titan_upload_tie in exact t).
+Proof. exact (@EquivServer.process_titan_upload_tie). Qed.
+Print Assumptions C14_code_process_titan_upload_tie.
+
+Theorem C14_code_start_titan_upload_tie : ltac:(let t := type of @EquivServer.start_titan_upload_tie in exact t).
+Proof. exact (@EquivServer.start_titan_upload_tie). Qed.
+Print Assumptions C14_code_start_titan_upload_tie.
+
+
 Close Scope N_scope.
